@@ -10,16 +10,66 @@ func c16Interference(label string) int {
 	vAssume(vAnd(d >= 0, d <= 2))
 	return d
 }
+
+// numbers and ids handed to THIS goroutine by the counters (everything in between went to other goroutines)
+var c16Mine struct {
+	innov []int64
+	nodes []int
+}
+
 func c16NextInnovationNumber(p *Population) int64 {
 	p.nextInnovNum += int64(c16Interference("innovation numbers drawn by other goroutines meanwhile"))
 	p.nextInnovNum++
+	c16Mine.innov = append(c16Mine.innov, p.nextInnovNum)
 	return p.nextInnovNum
 }
 func c16NextNodeId(p *Population) int {
 	p.nextNodeId += int32(c16Interference("node ids drawn by other goroutines meanwhile"))
 	p.nextNodeId++
+	c16Mine.nodes = append(c16Mine.nodes, int(p.nextNodeId))
 	return int(p.nextNodeId)
 }
 
-func VC16_Step_AddNode() { vcMut(propC16, mutAddNode, cfgSmall, vChoice("record", 2)) }
-func VC16_Step_AddLink() { vcMut(propC16, mutAddLink, cfgLink, vChoice("record", 2)) }
+// every number a new gene carries was either recorded before (a re-used innovation) or handed to this goroutine by
+// the counter: a number computed any other way may have gone to another goroutine in the meantime
+func (m *mutScene) checkMine() {
+	ok := true
+	for _, gn := range m.g.Genes {
+		if isOld(gn, m.oldGenes) {
+			continue
+		}
+		mine := false
+		for _, r := range m.rec {
+			mine = vOr(mine, vOr(gn.InnovationNum == r.InnovationNum, gn.InnovationNum == r.InnovationNum2))
+		}
+		for _, x := range c16Mine.innov {
+			mine = vOr(mine, gn.InnovationNum == x)
+		}
+		ok = vAnd(ok, mine)
+	}
+	vAssert(ok, "C16 step: every new gene carries a recorded number or one the counter handed to this goroutine")
+	okN := true
+	for _, n := range m.g.Nodes {
+		if isOld(n, m.oldNodes) {
+			continue
+		}
+		mine := false
+		for _, r := range m.rec {
+			mine = vOr(mine, vAnd(r.innovationType == newNodeInnType, n.Id == r.NewNodeId))
+		}
+		for _, x := range c16Mine.nodes {
+			mine = vOr(mine, n.Id == x)
+		}
+		okN = vAnd(okN, mine)
+	}
+	vAssert(okN, "C16 step: every new node carries a recorded id or one the counter handed to this goroutine")
+}
+
+func VC16_Step_AddNode() {
+	c16Mine.innov, c16Mine.nodes = nil, nil
+	vcMut(propC16, mutAddNode, cfgSmall, vChoice("record", 2))
+}
+func VC16_Step_AddLink() {
+	c16Mine.innov, c16Mine.nodes = nil, nil
+	vcMut(propC16, mutAddLink, cfgLink, vChoice("record", 2))
+}
